@@ -40,6 +40,7 @@ func runC04(c *Ctx) {
 	ruleReplayUnconditional(c, "C04.16")
 	ruleMultiPageRedo(c, "C04.17")
 	c02DoRedo(c, "C04.18")
+	c11MarkDirty(c, "C04.19")
 	// the log append of a statement is in the same bracket as its page changes (otherwise the timer
 	// flush can write an unlogged change and its LSN to the data file)
 	sub := NewCtx("C04", c.W)
